@@ -396,10 +396,10 @@ class InteractingNetworks(Network):
         :rtype: 2D array [node index, node index]
         :return: the subnetwork's adjacency matrix.
         """
-        #  Create igraph Graph object describing the subgraph
-        subgraph = self.graph.subgraph(node_list)
-        #  Get adjacency matrix
-        return np.array(subgraph.get_adjacency(type=2).data).astype(np.int8)
+        #  Index the adjacency matrix directly: this keeps the given order of
+        #  the nodes (an igraph subgraph would sort them by index)
+        nodes = np.array(node_list, dtype=int)
+        return self.sp_A[nodes, :][:, nodes].toarray().astype(np.int8)
 
     def cross_adjacency(self, node_list1, node_list2):
         """
